@@ -78,8 +78,11 @@ func c10g(c *Ctx) {
 	}
 	var foreign []site
 	nOwn := 0
-	for _, pkg := range []string{"parser", "emitter"} {
-		for _, fn := range c.W.FuncsOf(pkg) {
+	// (every package of the repository: a method on a node in package ast rewrites the tree just
+	// as well as a function of the parser)
+	for _, pkg := range []string{"*"} {
+		_ = pkg
+		for _, fn := range c.W.Funcs {
 			if isTestFunc(c.W, fn) || len(fn.Blocks) == 0 {
 				continue
 			}
@@ -90,6 +93,20 @@ func c10g(c *Ctx) {
 				}
 				fa, ok := st.Addr.(*ssa.FieldAddr)
 				if !ok {
+					// a whole node written over (`*leaf = ast.OperatorExpression{…}`)
+					if pt, isP := st.Addr.Type().Underlying().(*types.Pointer); isP {
+						if n, isN := pt.Elem().(*types.Named); isN && n.Obj().Pkg() != nil && strings.HasSuffix(n.Obj().Pkg().Path(), "/ast") {
+							if _, isStruct := n.Underlying().(*types.Struct); isStruct {
+								switch st.Addr.(type) {
+								case *ssa.Alloc:
+								default:
+									if _, local := rootValue(st.Addr).(*ssa.Alloc); !local {
+										foreign = append(foreign, site{fn, st, n.Obj().Name() + ".*"})
+									}
+								}
+							}
+						}
+					}
 					return
 				}
 				pt, ok := fa.X.Type().Underlying().(*types.Pointer)
@@ -136,6 +153,80 @@ func c10g(c *Ctx) {
 		why, ok := c10gTouches[k]
 		c.Check(ok, fmt.Sprintf("written-by-its-maker/%s#%d", k, seen[k]), c.W.Pos(s.st.Pos()), "a reviewed finishing touch ("+why+")", s.fn.Name()+" stores "+pretty(c.term(s.fn, s.st.Val))+" into "+s.field+" of a node it did not make ("+pretty(c.term(s.fn, s.st.Addr))+"): the tree is rewritten after it was parsed, so what is emitted is no longer what was written")
 	}
+	// what is stored into a node is what was parsed: a sub-tree (pointer or interface to a node)
+	// put into a field is a node made here, the result of a parser function that consumes tokens,
+	// a value handed in, or what a constructor made — never the result of a helper that only
+	// reads its argument and hands back "a better version" of it (merged, normalised, emptied)
+	nSub := 0
+	for _, fn := range c.W.FuncsOf("parser") {
+		if isTestFunc(c.W, fn) || len(fn.Blocks) == 0 {
+			continue
+		}
+		k := 0
+		instrs(fn, func(in ssa.Instruction) {
+			st, ok := in.(*ssa.Store)
+			if !ok || !isASTType(st.Val.Type()) {
+				return
+			}
+			if _, isSl := st.Val.Type().Underlying().(*types.Slice); isSl {
+				return
+			}
+			fa, ok := st.Addr.(*ssa.FieldAddr)
+			if !ok {
+				return
+			}
+			if n := namedOf(deref(fa.X.Type())); n == nil || n.Obj().Pkg() == nil || !strings.HasSuffix(n.Obj().Pkg().Path(), "/ast") {
+				return
+			}
+			nSub++
+			var leaves []ssa.Value
+			phiLeaves(st.Val, map[ssa.Value]bool{}, &leaves)
+			for _, lf := range leaves {
+				v := lf
+				if mi, isMI := v.(*ssa.MakeInterface); isMI {
+					v = mi.X
+				}
+				if ex, isEx := v.(*ssa.Extract); isEx {
+					v = ex.Tuple
+				}
+				call, isCall := v.(*ssa.Call)
+				if !isCall {
+					continue
+				}
+				g := callee(call)
+				if g == nil || !c.W.InRepo(g) || len(g.Blocks) == 0 || c.T(fn).purity(g) < purReadOnly {
+					continue // a parser function (consumes tokens)
+				}
+				// a constructor: every result is a node it has just made
+				ctor := true
+				for _, r := range returnsOf(g) {
+					rv := r.Results[0]
+					if mi, isMI := rv.(*ssa.MakeInterface); isMI {
+						rv = mi.X
+					}
+					if _, own := rv.(*ssa.Alloc); !own {
+						ctor = false
+					}
+				}
+				if ctor {
+					continue
+				}
+				// (it reworks something only if it is handed a piece of the tree)
+				takesTree := false
+				for _, a := range call.Call.Args {
+					if isASTType(a.Type()) {
+						takesTree = true
+					}
+				}
+				if !takesTree {
+					continue
+				}
+				k++
+				c.Bad(fmt.Sprintf("sub-tree-is-what-was-parsed/%s/%s#%d", fn.Name(), fieldName(fa.X.Type(), fa.Field), k), c.W.Pos(st.Pos()), fn.Name()+" stores the result of "+g.Name()+" — a helper that consumes no tokens and does not simply build a new node — into "+fieldName(fa.X.Type(), fa.Field)+": the sub-tree that was parsed is replaced by a reworked one")
+			}
+		})
+	}
+	c.Check(nSub >= 20, "sub-tree-is-what-was-parsed/census", "-", fmt.Sprintf("%d stores of sub-trees into nodes", nSub), fmt.Sprintf("only %d stores of sub-trees into nodes found", nSub))
 	// the lists a node holds (statements, cases, entries, arguments, items ...) are only ever set
 	// to: the empty list; themselves with something appended; a list gathered in a local of the
 	// function; or the list a parser function (one that consumes tokens) returned. Nothing
